@@ -5,7 +5,8 @@ usage: confirm_seeds.py <worker-index> <n-workers> [ids...]"""
 import json, os, re, subprocess, sys, shutil, time
 W, N = int(sys.argv[1]), int(sys.argv[2])
 only = sys.argv[3:]
-SEEDS = "/tmp/seeds"
+SEEDS = os.environ.get("SEEDS_DIR", "/tmp/seeds")
+KOFF = int(os.environ.get("K_OFFSET", "0"))
 OUT = "/verif/seeded"
 jobs = []
 for pid in sorted(os.listdir(SEEDS)):
@@ -18,8 +19,8 @@ for pid in sorted(os.listdir(SEEDS)):
         if os.path.exists(os.path.join(d, k, "patch.diff")):
             jobs.append((pid, k))
 jobs = [j for i, j in enumerate(jobs) if i % N == W]
-wt = "/tmp/seedwt-%d" % W
-tgt = "/tmp/seedtarget-%d" % W
+wt = "/tmp/seedwt%s-%d" % ("b" if KOFF else "", W)
+tgt = "/tmp/seedtarget%s-%d" % ("b" if KOFF else "", W)
 subprocess.call(["git", "-C", "/repo", "worktree", "remove", "--force", wt], stderr=subprocess.DEVNULL)
 subprocess.check_call(["git", "-C", "/repo", "worktree", "add", "-q", "--detach", wt, "HEAD"])
 shutil.copy("/repo/Cargo.lock", wt)
@@ -47,11 +48,11 @@ def run_tests(feats, workspace=False):
 
 for (pid, k) in jobs:
     src = os.path.join(SEEDS, pid, k)
-    dst = os.path.join(OUT, "%s-%s" % (pid, k))
+    dst = os.path.join(OUT, "%s-%s" % (pid, int(k) + KOFF if KOFF else k))
     if os.path.exists(os.path.join(dst, "meta.json")):
         continue
     t0 = time.time()
-    meta = {"property": pid, "seed": k, "base_commit": head, "confirmed": False}
+    meta = {"property": pid, "seed": str(int(k) + KOFF if KOFF else k), "base_commit": head, "confirmed": False, "round": 2 if KOFF else 1}
     feats = "fusedev,virtiofs,vhost-user-fs,persist" + (",async-io" if pid == "C20" or "async" in open(os.path.join(src, "demo.diff")).read()[:20000] and pid in ("C20",) else "")
     reset()
     rc, out = sh(["git", "apply", "--check", os.path.join(src, "patch.diff")])
